@@ -17,11 +17,12 @@ Definition step_ok (m : st) (s : spec) (o : op) : Prop :=
 Lemma Sim_same_views m m' s ext :
   Sim e m s -> same_views m m' -> pushed e m m' ext -> Sim e m' s.
 Proof.
-  intros [I C Mc Mf Sn Nu] SV P. destruct SV as [V1 V2 V3 V4 V5 V6]. decompose [and] V6.
+  intros [I C Mc Mf Sn Nu] SV P. destruct SV as [V1 V2 V3 V4 V5 Vc V6]. decompose [and] V6.
   constructor.
   - exact V1.
   - apply (Coh_frame m); assumption.
-  - destruct Mc as [M1 M2]. split; [intros a k; rewrite V4; apply M1 | intros a; rewrite V5; apply M2].
+  - destruct Mc as [M1 [M2 M3]].
+    split; [intros a k; rewrite V4; apply M1 | split; [intros a; rewrite V5; apply M2 | intros a; rewrite Vc; apply M3]].
   - apply (fl_matches_frame m); assumption.
   - apply (snap_ok_pushed e m m' s ext); [exact Sn | exact P].
   - apply (nums_frame m); assumption.
@@ -40,31 +41,34 @@ Lemma Sim_wrote_st m m' s a k b ext :
   Sim e m s -> wrote_st m m' a k b -> pushed e m m' ext ->
   Sim e m' (sp_set_cur s (sm_st_set (sp_cur s) a k b)).
 Proof.
-  intros [I C Mc Mf Sn Nu] W P. destruct W as [W1 W2 W3 W4 W5 W6]. decompose [and] W6.
+  intros [I C Mc Mf Sn Nu] W P. destruct W as [W1 W2 W3 W4 W5 Wc W6]. decompose [and] W6.
   constructor.
   - exact W1.
   - apply (Coh_frame m); assumption.
-  - destruct Mc as [M1 M2]. split.
+  - destruct Mc as [M1 [M2 M3]]. split; [| split].
     + intros a' k'. cbn [sp_cur sp_set_cur]. rewrite W4, sm_st_get_set.
       destruct ((a' =? a) && bytes_eqb k' k); [reflexivity | apply M1].
     + intros a'. cbn [sp_cur sp_set_cur]. rewrite W5, sm_acct_get_st_set. apply M2.
+    + intros a'. cbn [sp_cur sp_set_cur]. rewrite Wc, sm_acct_get_st_set. apply M3.
   - apply (fl_matches_frame m); assumption.
   - apply snap_ok_set_cur. apply (snap_ok_pushed e m m' s ext); [exact Sn | exact P].
   - apply nums_set_cur. apply (nums_frame m); assumption.
 Qed.
 
-Lemma Sim_wrote_ac m m' s a x y ext :
-  Sim e m s -> wrote_ac m m' a x -> pushed e m m' ext -> acct_rel (acct_view (Some x)) y ->
+Lemma Sim_wrote_ac m m' s a x b y ext :
+  Sim e m s -> wrote_ac m m' a x b -> pushed e m m' ext -> acct_rel (acct_view (Some x)) y -> sa_code y = b ->
   Sim e m' (sp_touch (sp_set_cur s (sm_acct_set (sp_cur s) a y)) a).
 Proof.
-  intros [I C Mc Mf Sn Nu] W P Hy. destruct W as [W1 W2 W3 W4 W5 W6]. decompose [and] W6.
+  intros [I C Mc Mf Sn Nu] W P Hy Hyc. destruct W as [W1 W2 W3 W4 W5 Wc W6]. decompose [and] W6.
   constructor.
   - exact W1.
   - apply (Coh_frame m); assumption.
-  - destruct Mc as [M1 M2]. split.
+  - destruct Mc as [M1 [M2 M3]]. split; [| split].
     + intros a' k'. cbn [sp_cur sp_set_cur sp_touch]. rewrite W4, sm_st_get_acct_set. apply M1.
     + intros a'. cbn [sp_cur sp_set_cur sp_touch]. rewrite W5, sm_acct_get_set.
       destruct (a' =? a); [exact Hy | apply M2].
+    + intros a'. cbn [sp_cur sp_set_cur sp_touch]. rewrite Wc, sm_acct_get_set.
+      destruct (a' =? a); [symmetry; exact Hyc | apply M3].
   - apply (fl_matches_frame m); assumption.
   - apply snap_ok_touch, snap_ok_set_cur. apply (snap_ok_pushed e m m' s ext); [exact Sn | exact P].
   - apply nums_touch, nums_set_cur. apply (nums_frame m); assumption.
@@ -74,7 +78,7 @@ Qed.
 Lemma got_ok_pushed m a m1 o : Inv m -> got m a m1 o -> got_ok m a m1 o ->
   exists ext0, pushed e m m1 ext0 /\ s_chg m1 = ext0 ++ s_chg m /\ create_ext m a ext0.
 Proof.
-  intros I G GO. destruct (got_ok_create_ext m a m1 o GO) as [ext0 [Hc CE]].
+  intros I G GO. destruct (got_ok_create_ext e m a m1 o GO) as [ext0 [Hc CE]].
   exists ext0. split; [| split; assumption].
   apply (pushed_same_views e m m1 a ext0); try assumption.
   - apply (got_ok_same_views m a m1 o GO).
@@ -92,7 +96,7 @@ Proof.
   split.
   - apply (Sim_same_views m m1 s ext0 S); [apply (got_ok_same_views m a m1 o GO) | exact P].
   - cbn [sexp_match sx_match]. injection Hx as Hx. rewrite Hx.
-    destruct (sim_cur e m s S) as [_ M2]. destruct (M2 a) as [_ [Hb _]]. rewrite Hb. apply Z.eqb_refl.
+    destruct (sim_cur e m s S) as [_ [M2 _]]. destruct (M2 a) as [_ Hb]. rewrite Hb. apply Z.eqb_refl.
 Qed.
 
 Lemma step_getnonce m s a : Sim e m s -> step_ok m s (GetNonce a).
@@ -105,7 +109,7 @@ Proof.
   split.
   - apply (Sim_same_views m m1 s ext0 S); [apply (got_ok_same_views m a m1 o GO) | exact P].
   - cbn [sexp_match sx_match]. injection Hx as Hx. rewrite Hx.
-    destruct (sim_cur e m s S) as [_ M2]. destruct (M2 a) as [Hn _]. rewrite Hn. apply N.eqb_refl.
+    destruct (sim_cur e m s S) as [_ [M2 _]]. destruct (M2 a) as [Hn _]. rewrite Hn. apply N.eqb_refl.
 Qed.
 
 Lemma step_getcode m s a : Sim e m s -> step_ok m s (GetCode a).
@@ -114,14 +118,14 @@ Proof.
   pose proof (do_getcode_spec m a (sim_inv e m s S)) as D.
   pose proof (do_getcode_mono m a) as Mo.
   destruct (do_getcode m a) as [m2 x]. cbn [fst] in Mo.
-  destruct D as [m1 [o [GO [SV [Hc [Hx Hp]]]]]].
-  destruct (got_ok_create_ext m a m1 o GO) as [ext0 [Hc1 CE]].
+  destruct D as [m1 [o [c [GO [SV [Hc [Hx [Hcv Hp]]]]]]]].
+  destruct (got_ok_create_ext e m a m1 o GO) as [ext0 [Hc1 CE]].
   assert (SV2 : same_views m m2) by (eapply same_views_trans; [apply (got_ok_same_views m a m1 o GO) | exact SV]).
   split.
   - apply (Sim_same_views m m2 s ext0 S SV2).
     apply (pushed_same_views e m m2 a ext0); try assumption; try (apply S). congruence.
-  - subst x. cbn [sexp_match sx_match nb].
-    destruct (sim_cur e m s S) as [_ M2]. destruct (M2 a) as [_ [_ Hcode]]. rewrite Hcode. reflexivity.
+  - subst x. cbn [sexp_match sx_match].
+    destruct (sim_cur e m s S) as [_ [_ M3]]. rewrite Hcv, M3. apply bytes_eqb_refl.
 Qed.
 
 Lemma step_getst m s a k : Sim e m s -> step_ok m s (GetSt a k).
@@ -131,7 +135,7 @@ Proof.
   pose proof (do_getst_mono m a k) as Mo.
   destruct (do_getst m a k) as [m2 x]. cbn [fst] in Mo.
   destruct D as [m1 [o [v [GO [SV [Hc [Hx [Hv Hp]]]]]]]].
-  destruct (got_ok_create_ext m a m1 o GO) as [ext0 [Hc1 CE]].
+  destruct (got_ok_create_ext e m a m1 o GO) as [ext0 [Hc1 CE]].
   assert (SV2 : same_views m m2) by (eapply same_views_trans; [apply (got_ok_same_views m a m1 o GO) | exact SV]).
   split.
   - apply (Sim_same_views m m2 s ext0 S SV2).
@@ -146,7 +150,7 @@ Proof.
   pose proof (do_setst_spec m a k v (sim_inv e m s S)) as D. cbv zeta in D.
   pose proof (do_setst_mono m a k v) as Mo.
   destruct D as [W [prev [m1 [o [GO [Hprev [Hc Ho']]]]]]].
-  destruct (got_ok_create_ext m a m1 o GO) as [ext0 [Hc1 CE]].
+  destruct (got_ok_create_ext e m a m1 o GO) as [ext0 [Hc1 CE]].
   split; [| reflexivity].
   apply (Sim_wrote_st m _ s a k (nb v) (ChState a k prev :: ext0) S W).
   apply (pushed_write_st e m _ a k (nb v) prev ext0); try assumption; try (apply S).
@@ -159,16 +163,36 @@ Proof.
   pose proof (do_setbal_spec m a z (sim_inv e m s S)) as D. cbv zeta in D.
   pose proof (do_setbal_mono m a z) as Mo.
   destruct D as [W [m1 [o [GO [Hc Hp]]]]].
-  destruct (got_ok_create_ext m a m1 o GO) as [ext0 [Hc1 CE]].
+  destruct (got_ok_create_ext e m a m1 o GO) as [ext0 [Hc1 CE]].
   split; [| reflexivity].
-  destruct (sim_cur e m s S) as [_ M2]. destruct (M2 a) as [Hn [Hb Hcode]].
-  apply (Sim_wrote_ac m _ s a (with_bal (cur_oacct m a) z) _ (ChBal a (snd (fst (acct_view (cur_oacct m a)))) :: ext0) S W).
-  - apply (pushed_write_ac e m _ a (with_bal (cur_oacct m a) z) _ ext0); try assumption; try (apply S).
+  destruct (sim_cur e m s S) as [_ [M2 M3]]. destruct (M2 a) as [Hn Hb].
+  apply (Sim_wrote_ac m _ s a (with_bal (cur_oacct m a) z) (cur_code m a) _ (ChBal a (snd (fst (acct_view (cur_oacct m a)))) :: ext0) S W).
+  - apply (pushed_write_ac e m _ a (with_bal (cur_oacct m a) z) (cur_code m a) _ ext0); try assumption; try (apply S).
     + rewrite Hc, Hc1. reflexivity.
     + left. split; [reflexivity|]. unfold with_bal. destruct (cur_oacct m a); split; reflexivity.
   - unfold acct_rel, with_bal. cbn [acct_view fst snd sa_nonce sa_bal sa_code].
-    split; [| split; [reflexivity | exact Hcode]].
+    split; [| reflexivity].
     rewrite <- Hn. destruct (cur_oacct m a); reflexivity.
+  - cbn [sa_code]. symmetry. apply M3.
+Qed.
+
+Lemma step_setcode m s a c : Sim e m s -> c <> None -> step_ok m s (SetCode a c).
+Proof.
+  intros S Hne. unfold step_ok. cbn [step spec_step].
+  pose proof (do_setcode_spec m a c (sim_inv e m s S)) as D. cbv zeta in D.
+  pose proof (do_setcode_mono m a c) as Mo.
+  destruct D as [prev [m1 [o [GO [W [Hc [Hprev [Hnone Hp]]]]]]]]. specialize (W Hne).
+  destruct (got_ok_create_ext e m a m1 o GO) as [ext0 [Hc1 CE]].
+  split; [| reflexivity].
+  destruct (sim_cur e m s S) as [_ [M2 M3]]. destruct (M2 a) as [Hn Hb].
+  apply (Sim_wrote_ac m _ s a (with_ch (cur_oacct m a) (e_kec e (nb c))) (nb c) _ (ChCode a prev :: ext0) S W).
+  - apply (pushed_write_ac e m _ a (with_ch (cur_oacct m a) (e_kec e (nb c))) (nb c) _ ext0); try assumption; try (apply S).
+    + rewrite Hc, Hc1. reflexivity.
+    + right. right. exists prev. split; [reflexivity|]. split; [| split; assumption].
+      unfold with_ch. destruct (cur_oacct m a); reflexivity.
+  - unfold acct_rel, with_ch. cbn [acct_view fst snd sa_nonce sa_bal sa_code].
+    split; [rewrite <- Hn | rewrite <- Hb]; destruct (cur_oacct m a); reflexivity.
+  - reflexivity.
 Qed.
 
 (** AddBalance = GetOrCreateAccount, then SetBalance(current + amount) unless the amount is zero *)
@@ -183,7 +207,7 @@ Proof.
   pose proof (step_setbal m1 s a (obj_bal o + z)%Z S1) as SB. unfold step_ok in SB. cbn [step spec_step] in SB.
   destruct SB as [S2 _]. split; [| reflexivity].
   assert (Hb : obj_bal o = sa_bal (sm_acct_get (sp_cur s) a)).
-  { rewrite Hx. destruct (sim_cur e m s S) as [_ M2]. destruct (M2 a) as [_ [Hb _]]. exact Hb. }
+  { rewrite Hx. destruct (sim_cur e m s S) as [_ [M2 _]]. destruct (M2 a) as [_ Hb]. exact Hb. }
   rewrite <- Hb. exact S2.
 Qed.
 
@@ -193,16 +217,17 @@ Proof.
   pose proof (do_setnonce_spec m a n (sim_inv e m s S)) as D. cbv zeta in D.
   pose proof (do_setnonce_mono m a n) as Mo.
   destruct D as [W [m1 [o [GO [Hc Hp]]]]].
-  destruct (got_ok_create_ext m a m1 o GO) as [ext0 [Hc1 CE]].
+  destruct (got_ok_create_ext e m a m1 o GO) as [ext0 [Hc1 CE]].
   split; [| reflexivity].
-  destruct (sim_cur e m s S) as [_ M2]. destruct (M2 a) as [Hn [Hb Hcode]].
-  apply (Sim_wrote_ac m _ s a (with_nonce (cur_oacct m a) n) _ (ChNonce a (fst (fst (acct_view (cur_oacct m a)))) :: ext0) S W).
-  - apply (pushed_write_ac e m _ a (with_nonce (cur_oacct m a) n) _ ext0); try assumption; try (apply S).
+  destruct (sim_cur e m s S) as [_ [M2 M3]]. destruct (M2 a) as [Hn Hb].
+  apply (Sim_wrote_ac m _ s a (with_nonce (cur_oacct m a) n) (cur_code m a) _ (ChNonce a (fst (fst (acct_view (cur_oacct m a)))) :: ext0) S W).
+  - apply (pushed_write_ac e m _ a (with_nonce (cur_oacct m a) n) (cur_code m a) _ ext0); try assumption; try (apply S).
     + rewrite Hc, Hc1. reflexivity.
-    + right. split; [reflexivity|]. unfold with_nonce. destruct (cur_oacct m a); split; reflexivity.
+    + right. left. split; [reflexivity|]. unfold with_nonce. destruct (cur_oacct m a); split; reflexivity.
   - unfold acct_rel, with_nonce. cbn [acct_view fst snd sa_nonce sa_bal sa_code].
-    split; [reflexivity | split; [| exact Hcode]].
+    split; [reflexivity |].
     rewrite <- Hb. destruct (cur_oacct m a); reflexivity.
+  - cbn [sa_code]. symmetry. apply M3.
 Qed.
 
 (** * AddState: no undo entry; every snapshot taken before it loses its claim *)
@@ -232,16 +257,17 @@ Proof.
   intro S. unfold step_ok. cbn [step spec_step].
   pose proof (do_addst_spec m a k v (sim_inv e m s S)) as D. cbv zeta in D.
   destruct D as [W [m1 [o [GO Hc]]]].
-  destruct (got_ok_create_ext m a m1 o GO) as [ext0 [Hc1 CE]].
+  destruct (got_ok_create_ext e m a m1 o GO) as [ext0 [Hc1 CE]].
   split; [| reflexivity].
-  destruct S as [I C Mc Mf Sn Nu]. destruct W as [W1 W2 W3 W4 W5 W6]. decompose [and] W6.
+  destruct S as [I C Mc Mf Sn Nu]. destruct W as [W1 W2 W3 W4 W5 Wc W6]. decompose [and] W6.
   constructor.
   - exact W1.
   - apply (Coh_frame m); assumption.
-  - destruct Mc as [M1 M2]. split.
+  - destruct Mc as [M1 [M2 M3]]. split; [| split].
     + intros a' k'. cbn [sp_cur sp_set_cur sp_set_snaps]. rewrite W4, sm_st_get_set.
       destruct ((a' =? a) && bytes_eqb k' k); [reflexivity | apply M1].
     + intros a'. cbn [sp_cur sp_set_cur sp_set_snaps]. rewrite W5, sm_acct_get_st_set. apply M2.
+    + intros a'. cbn [sp_cur sp_set_cur sp_set_snaps]. rewrite Wc, sm_acct_get_st_set. apply M3.
   - apply (fl_matches_frame m); assumption.
   - apply (snap_ok_taint m _ s Sn); try assumption; [| reflexivity].
     rewrite Hc, Hc1, app_length. lia.
@@ -261,8 +287,7 @@ Proof. intro S. unfold step_ok. cbn [step spec_step]. split; [exact S | reflexiv
 (** * Clear *)
 Lemma Inv_clear m : Inv m -> Inv (set_objs m []).
 Proof.
-  intros [J1 J2 J3 J4 J5 J6]. constructor; simpl; try assumption; [constructor|].
-  intros a o H. discriminate.
+  intros [J1 J2 J3 J4 J5]. constructor; [constructor | intros a o H; discriminate | exact J3 | exact J4 | exact J5].
 Qed.
 
 Lemma cur_st_no_objs m a k : cur_st (set_objs m []) a k = fl_st m a k.
@@ -275,7 +300,9 @@ Proof.
   intros [I C Mc Mf Sn Nu]. constructor.
   - apply Inv_clear. exact I.
   - apply (Coh_frame m); try reflexivity. exact C.
-  - destruct Mf as [F1 F2]. split; [intros a k; rewrite cur_st_no_objs; apply F1 | intros a; rewrite cur_oacct_no_objs; apply F2].
+  - destruct Mf as [F1 [F2 F3]].
+    split; [intros a k; rewrite cur_st_no_objs; apply F1 | split; [intros a; rewrite cur_oacct_no_objs; apply F2|]].
+    intros a. change (cur_code (set_objs m []) a) with (nb (load_code m a)). rewrite (load_code_cached m a I). apply F3.
   - apply (fl_matches_frame m); try reflexivity. exact Mf.
   - apply (snap_ok_taint m _ s Sn); try reflexivity; simpl; lia.
   - apply (nums_transfer m _ s); try reflexivity; try assumption. apply Nu.
@@ -297,10 +324,11 @@ Proof.
   constructor.
   - apply (Inv_frame m); assumption.
   - apply (Coh_frame m); assumption.
-  - destruct Mc as [M1 M2]. split.
+  - destruct Mc as [M1 [M2 M3]]. split; [| split].
     + intros a k. unfold cur_st. cbn [s_objs set_revs]. rewrite F3.
       unfold obj_st, fl_st, cached_state. cbn [s_db s_cache set_revs]. rewrite F1, F2. apply M1.
     + intros a. unfold cur_oacct, fl_acct. cbn [s_objs s_db s_cache set_revs]. rewrite F1, F2, F3. apply M2.
+    + intros a. rewrite (cur_code_frame m (set_revs m1 [] 0)); [apply M3 | exact F1 | exact F2 | exact F3].
   - apply (fl_matches_frame m); assumption.
   - constructor; cbn [s_revs s_next set_revs sp_snaps sp_set_snaps].
     + reflexivity.
@@ -317,6 +345,7 @@ Proof.
   intros Hd Hc Hg Ho. constructor; try assumption.
   - intros a k. unfold cur_st, obj_st, fl_st, cached_state. rewrite Hd, Hc, Ho. reflexivity.
   - intros a. unfold cur_oacct, fl_acct. rewrite Hd, Hc, Ho. reflexivity.
+  - intros a. apply cur_code_frame; assumption.
 Qed.
 
 Lemma live_ok_frame m m' l :
@@ -324,6 +353,7 @@ Lemma live_ok_frame m m' l :
 Proof.
   intros Hd Hc Ho. apply live_ok_mono.
   - intro a. apply fl_acct_frame; assumption.
+  - intro a. apply cached_code_frame; assumption.
   - intros a o H. exists o. rewrite Ho. split; [exact H | tauto].
 Qed.
 
@@ -478,39 +508,41 @@ Section Steps2.
 Variable e : env.
 
 Lemma ObjOk_fl_ext m m' a o :
-  (forall k, fl_st m' a k = fl_st m a k) -> fl_acct m' a = fl_acct m a -> ObjOk m a o -> ObjOk m' a o.
+  (forall k, fl_st m' a k = fl_st m a k) -> fl_acct m' a = fl_acct m a -> cached_code m' a = cached_code m a ->
+  ObjOk m a o -> ObjOk m' a o.
 Proof.
-  intros Hs Ha [H1 H2 H3 H4 H5]. constructor; try assumption.
+  intros Hs Ha Hc [H1 H2 H3 H4 H5 H6]. constructor; try assumption.
   - intros k v Hk. rewrite Hs. apply H2. exact Hk.
   - rewrite Ha. exact H4.
+  - rewrite Hc. exact H5.
+  - rewrite Hc. exact H6.
 Qed.
 
 (** with a coherent cache, dropping cache entries changes no flushed view *)
 Lemma evict_fl m a layer k : Inv m -> Coh m ->
   let m' := do_evict m a layer k in
   (forall a' k', fl_st m' a' k' = fl_st m a' k') /\ (forall a', fl_acct m' a' = fl_acct m a') /\
-  Coh m' /\ c_code (s_cache m') = [] /\
-  (forall a' x, aget a' (c_acct (s_cache m')) = Some x -> ac_ch x = None).
+  Coh m' /\ (forall a', cached_code m' a' = cached_code m a') /\
+  (forall a' v, aget a' (c_code (s_cache m')) = Some v -> v = db_code m' a').
 Proof.
   intros I C. cbv zeta. unfold do_evict.
-  pose proof (inv_ccode m I) as Hcc.
+  pose proof (inv_cc m I) as Hcc.
   assert (Hsame : (forall a' k', fl_st m a' k' = fl_st m a' k') /\ (forall a', fl_acct m a' = fl_acct m a') /\
-                  Coh m /\ c_code (s_cache m) = [] /\
-                  (forall a' x, aget a' (c_acct (s_cache m)) = Some x -> ac_ch x = None)).
-  { repeat split; try assumption; try apply C. apply (inv_cacct m I). }
+                  Coh m /\ (forall a', cached_code m a' = cached_code m a') /\
+                  (forall a' v, aget a' (c_code (s_cache m)) = Some v -> v = db_code m a')).
+  { repeat split; try assumption; try apply C. }
   assert (Hid : set_cache m (s_cache m) = m) by (destruct m; reflexivity).
   destruct (layer =? 0) eqn:E0; [| destruct (layer =? 1) eqn:E1; [| destruct (layer =? 2) eqn:E2; [| destruct (layer =? 3) eqn:E3]]].
   - (* inner account *)
-    split; [intros a' k'; reflexivity|]. split; [| split; [| split; [exact Hcc|]]].
+    split; [intros a' k'; reflexivity|]. split; [| split; [| split; [intros a'; reflexivity | exact Hcc]]].
     + intros a'. unfold fl_acct. cbn [s_cache set_cache c_acct s_db]. rewrite aget_adel.
       destruct (a' =? a) eqn:E; [| reflexivity]. apply N.eqb_eq in E. subst a'.
       destruct (aget a (c_acct (s_cache m))) as [x|] eqn:Ex; [| reflexivity].
       exact (coh_acct m C a x Ex).
     + constructor; cbn [s_cache set_cache c_acct c_st s_db s_pend]; try apply C.
       intros a' x. rewrite aget_adel. destruct (a' =? a); [discriminate | apply (coh_acct m C)].
-    + intros a' x. cbn [s_cache set_cache c_acct]. rewrite aget_adel. destruct (a' =? a); [discriminate | apply (inv_cacct m I)].
   - (* the account's whole state cache *)
-    split; [| split; [intros a'; reflexivity | split; [| split; [exact Hcc | apply (inv_cacct m I)]]]].
+    split; [| split; [intros a'; reflexivity | split; [| split; [intros a'; reflexivity | exact Hcc]]]].
     + intros a' k'. unfold fl_st, cached_state. cbn [s_cache set_cache c_st s_db]. rewrite aget_adel.
       destruct (a' =? a) eqn:E; [| reflexivity]. apply N.eqb_eq in E. subst a'.
       destruct (aget a (c_st (s_cache m))) as [cm|] eqn:Ec; [| reflexivity].
@@ -520,7 +552,7 @@ Proof.
       intros a' cm k' v. rewrite aget_adel. destruct (a' =? a); [discriminate | apply (coh_st m C)].
   - (* one key *)
     destruct (aget a (c_st (s_cache m))) as [cm|] eqn:Ec; [| rewrite Hid; exact Hsame].
-    split; [| split; [intros a'; reflexivity | split; [| split; [exact Hcc | apply (inv_cacct m I)]]]].
+    split; [| split; [intros a'; reflexivity | split; [| split; [intros a'; reflexivity | exact Hcc]]]].
     + intros a' k'. unfold fl_st, cached_state. cbn [s_cache set_cache c_st s_db]. rewrite aget_aput.
       destruct (a' =? a) eqn:E; [| reflexivity]. apply N.eqb_eq in E. subst a'. rewrite Ec, kget_kdel.
       destruct (bytes_eqb k' k) eqn:Ek; [| reflexivity]. apply bytes_eqb_spec in Ek. subst k'.
@@ -531,10 +563,14 @@ Proof.
       * apply N.eqb_eq in E. subst a'. intro H. inversion H; subst cm'. rewrite kget_kdel.
         destruct (bytes_eqb k' k); [discriminate | apply (coh_st m C a cm k' v Ec)].
       * apply (coh_st m C).
-  - (* code: nothing cached *)
-    assert (Hc : mkCache (c_acct (s_cache m)) (c_st (s_cache m)) (adel a (c_code (s_cache m))) = s_cache m).
-    { rewrite Hcc. destruct (s_cache m) as [x y z]. simpl in *. subst z. reflexivity. }
-    rewrite Hc, Hid. exact Hsame.
+  - (* code: a cached code is the stored code *)
+    split; [intros a' k'; reflexivity|]. split; [intros a'; reflexivity|]. split; [| split].
+    + constructor; cbn [s_cache set_cache c_acct c_st s_db s_pend]; apply C.
+    + intros a'. unfold cached_code, db_code. cbn [s_cache set_cache c_code s_db]. rewrite aget_adel.
+      destruct (a' =? a) eqn:E; [| reflexivity]. apply N.eqb_eq in E. subst a'.
+      destruct (aget a (c_code (s_cache m))) as [v|] eqn:Ev; [| reflexivity].
+      symmetry. exact (Hcc a v Ev).
+    + intros a' v. cbn [s_cache set_cache c_code]. rewrite aget_adel. destruct (a' =? a); [discriminate | apply Hcc].
   - rewrite Hid. exact Hsame.
 Qed.
 
@@ -555,12 +591,25 @@ Proof.
     destruct (kget k' (o_dst o)); [reflexivity|]. destruct (kget k' (o_ost o)); [reflexivity | apply E1]. }
   assert (Hca : forall a', cur_oacct m' a' = cur_oacct m a').
   { intros a'. unfold cur_oacct. rewrite G2. destruct (aget a' (s_objs m)); [reflexivity | apply E2]. }
+  assert (Hfc : forall a', fl_ch m' a' = fl_ch m a') by (intro a'; unfold fl_ch; rewrite E2; reflexivity).
+  assert (I' : Inv m').
+  { destruct I as [J1 J2 J3 J4 J5]. constructor.
+    - rewrite G2. exact J1.
+    - intros a' o Ho. rewrite G2 in Ho.
+      apply (ObjOk_fl_ext m m' a' o); [intro k'; apply E1 | apply E2 | apply E4 | apply J2; exact Ho].
+    - intro a'. rewrite Hfc, E4. apply J3.
+    - intro a'. rewrite Hfc, E4. apply J4.
+    - exact E5. }
+  assert (Hcc : forall a', cur_code m' a' = cur_code m a').
+  { intros a'. unfold cur_code. rewrite G2. destruct (aget a' (s_objs m)); [reflexivity|].
+    rewrite (load_code_cached m' a' I'), (load_code_cached m a' I), E4. reflexivity. }
   constructor.
-  - destruct I as [J1 J2 J3 J4 J5 J6]. constructor; rewrite ?G1, ?G2; try assumption.
-    intros a' o Ho. apply (ObjOk_fl_ext m m' a' o); [intro k'; apply E1 | apply E2 | apply J2; exact Ho].
+  - exact I'.
   - exact E3.
-  - destruct Mc as [M1 M2]. split; [intros a' k'; rewrite Hcs; apply M1 | intros a'; rewrite Hca; apply M2].
-  - destruct Mf as [M1 M2]. split; [intros a' k'; rewrite E1; apply M1 | intros a'; rewrite E2; apply M2].
+  - destruct Mc as [M1 [M2 M3]].
+    split; [intros a' k'; rewrite Hcs; apply M1 | split; [intros a'; rewrite Hca; apply M2 | intros a'; rewrite Hcc; apply M3]].
+  - destruct Mf as [M1 [M2 M3]].
+    split; [intros a' k'; rewrite E1; apply M1 | split; [intros a'; rewrite E2; apply M2 | intros a'; rewrite E4; apply M3]].
   - destruct Sn as [S1 S2 S3 S4]. constructor; rewrite ?G4, ?G5, ?G3; try assumption.
     intros id len S0 Ha Hb. exfalso.
     (* no live snapshot while an eviction happens *)
@@ -593,20 +642,29 @@ Proof.
   { intros a k. rewrite (fl_st_coh m a k C). reflexivity. }
   assert (Hfa : forall a, fl_acct m' a = fl_acct m a).
   { intros a. rewrite (fl_acct_coh m a C). reflexivity. }
+  assert (Hfc : forall a, fl_ch m' a = fl_ch m a) by (intro a; unfold fl_ch; rewrite Hfa; reflexivity).
+  assert (Hcd : forall a, cached_code m' a = cached_code m a).
+  { intros a. unfold cached_code at 2. destruct (aget a (c_code (s_cache m))) as [v|] eqn:Ev; [| reflexivity].
+    rewrite (inv_cc m I a v Ev). reflexivity. }
+  assert (I' : Inv m').
+  { constructor.
+    - constructor.
+    - intros a o H. discriminate.
+    - intro a. rewrite Hfc, Hcd. apply (inv_t1 m I).
+    - intro a. rewrite Hfc, Hcd. apply (inv_k1 m I).
+    - intros a v H. discriminate. }
   split; [| reflexivity].
   constructor.
-  - constructor; cbn [s_objs s_db s_cache c_code c_acct cache0 m']; try (apply I).
-    + constructor.
-    + intros a o H. discriminate.
-    + reflexivity.
-    + intros a x H. discriminate.
+  - exact I'.
   - constructor; cbn [s_cache s_pend c_st c_acct cache0 m']; try reflexivity; intros; discriminate.
-  - cbn [sp_cur sp_set_snaps sp_clear]. destruct Mf as [F1 F2]. split.
+  - cbn [sp_cur sp_set_snaps sp_clear]. destruct Mf as [F1 [F2 F3]]. split; [| split].
     + intros a k. change (cur_st m' a k) with (fl_st m' a k). rewrite Hfl. apply F1.
     + intros a. change (cur_oacct m' a) with (fl_acct m' a). rewrite Hfa. apply F2.
-  - cbn [sp_fl sp_set_snaps sp_clear]. destruct Mf as [F1 F2]. split.
+    + intros a. change (cur_code m' a) with (nb (load_code m' a)). rewrite (load_code_cached m' a I'), Hcd. apply F3.
+  - cbn [sp_fl sp_set_snaps sp_clear]. destruct Mf as [F1 [F2 F3]]. split; [| split].
     + intros a k. rewrite Hfl. apply F1.
     + intros a. rewrite Hfa. apply F2.
+    + intros a. rewrite Hcd. apply F3.
   - constructor; cbn [s_revs s_next s_chg sp_snaps sp_set_snaps m'].
     + reflexivity.
     + intros id len [].
